@@ -163,20 +163,23 @@ type lcase struct {
 	ok4    bool
 	ok6    bool
 	ip     string // expected address (textual) when accepted; "" = wildcard
-	port   int    // 0 = protocol default
+	port   int    // the port written in the string (meaningful when hasPort), else the protocol default applies
+	hasPort bool
 	zone   string
 	expand bool // zoneless link-local multicast: one listener per suitable interface
 }
 
 var listenCases = []lcase{
-	{s: "0.0.0.0", ok4: true, ip: "0.0.0.0"}, {s: "192.0.2.1", ok4: true, ip: "192.0.2.1"}, {s: "192.0.2.1:6767", ok4: true, ip: "192.0.2.1", port: 6767},
-	{s: ":67", ok4: true, ok6: true, port: 67}, {s: "%eth0", ok4: true, ok6: true, zone: "eth0"}, {s: "%eth0:1067", ok4: true, ok6: true, zone: "eth0", port: 1067},
-	{s: "192.0.2.1%eth1", ok4: true, ip: "192.0.2.1", zone: "eth1"}, {s: "[192.0.2.1%eth1]:68", ok4: true, ip: "192.0.2.1", zone: "eth1", port: 68},
-	{s: "[::]", ok6: true, ip: "::"}, {s: "[::]:547", ok6: true, ip: "::", port: 547}, {s: "[::]:", ok6: true, ip: "::"}, {s: "[2001:db8::1]", ok6: true, ip: "2001:db8::1"},
-	{s: "[2001:db8::1]:1547", ok6: true, ip: "2001:db8::1", port: 1547}, {s: "[fe80::1%eth0]:547", ok6: true, ip: "fe80::1", zone: "eth0", port: 547}, {s: "[fe80::1%eth0]", ok6: true, ip: "fe80::1", zone: "eth0"},
-	{s: "[ff02::1:2%eth0]", ok6: true, ip: "ff02::1:2", zone: "eth0"}, {s: "[ff02::1:2]", ok6: true, ip: "ff02::1:2", expand: true}, {s: "[ff02::1:2]:547", ok6: true, ip: "ff02::1:2", port: 547, expand: true},
+	{s: "0.0.0.0", ok4: true, ip: "0.0.0.0"}, {s: "192.0.2.1", ok4: true, ip: "192.0.2.1"}, {s: "192.0.2.1:6767", ok4: true, ip: "192.0.2.1", hasPort: true, port: 6767},
+	{s: ":67", ok4: true, ok6: true, hasPort: true, port: 67}, {s: "%eth0", ok4: true, ok6: true, zone: "eth0"}, {s: "%eth0:1067", ok4: true, ok6: true, zone: "eth0", hasPort: true, port: 1067},
+	{s: "192.0.2.1%eth1", ok4: true, ip: "192.0.2.1", zone: "eth1"}, {s: "[192.0.2.1%eth1]:68", ok4: true, ip: "192.0.2.1", zone: "eth1", hasPort: true, port: 68},
+	{s: "[::]", ok6: true, ip: "::"}, {s: "[::]:547", ok6: true, ip: "::", hasPort: true, port: 547}, {s: "[::]:", ok6: true, ip: "::"}, {s: "[2001:db8::1]", ok6: true, ip: "2001:db8::1"},
+	{s: "[2001:db8::1]:1547", ok6: true, ip: "2001:db8::1", hasPort: true, port: 1547}, {s: "[fe80::1%eth0]:547", ok6: true, ip: "fe80::1", zone: "eth0", hasPort: true, port: 547}, {s: "[fe80::1%eth0]", ok6: true, ip: "fe80::1", zone: "eth0"},
+	{s: "[ff02::1:2%eth0]", ok6: true, ip: "ff02::1:2", zone: "eth0"}, {s: "[ff02::1:2]", ok6: true, ip: "ff02::1:2", expand: true}, {s: "[ff02::1:2]:547", ok6: true, ip: "ff02::1:2", hasPort: true, port: 547, expand: true},
 	{s: "224.0.0.1", ok4: true, ip: "224.0.0.1", expand: true}, {s: "[ff05::1:3]", ok6: true, ip: "ff05::1:3"},
 	{s: "[::ffff:192.0.2.1]", ok4: true, ip: "192.0.2.1"}, // a v4-mapped literal is an IPv4 address
+	{s: "192.0.2.1:0", ok4: true, ip: "192.0.2.1", hasPort: true, port: 0}, {s: "[::1]:0", ok6: true, ip: "::1", hasPort: true, port: 0}, {s: ":00", ok4: true, ok6: true, hasPort: true, port: 0},
+	{s: "192.0.2.1:65535", ok4: true, ip: "192.0.2.1", hasPort: true, port: 65535},
 	// brackets are mandatory for IPv6 literals (config_test.go), everything below is rejected for both protocols
 	{s: "::"}, {s: "2001:db8::1"}, {s: "fe80::1%eth0"}, {s: "ff02::1:2"},
 	{s: "garbage"}, {s: "192.0.2.256"}, {s: "192.0.2.1:port"}, {s: "[::1"}, {s: "::1]:5"}, {s: "1.2.3.4:5:6"}, {s: "host.example.com"}, {s: "[2001:db8::1]x"},
@@ -263,7 +266,7 @@ func VerifH_config_listen() {
 		return
 	}
 	wantPort := lc.port
-	if wantPort == 0 {
+	if !lc.hasPort {
 		wantPort = def
 	}
 	for i := 0; i < n; i++ {
@@ -391,4 +394,40 @@ func VerifH_config_listen_free() {
 	for _, a := range sc.Addresses {
 		vnd.Assert(a.IP != nil && (a.IP.To4() != nil) == !v6, "C18 an accepted listen address has the protocol's family")
 	}
+}
+
+// VerifH_config_port: an explicitly written port is taken as written (all
+// one- and two-digit ports, digits symbolic), the default only when omitted.
+func VerifH_config_port() {
+	v6 := vnd.Pick("proto", 0, 1) == 1
+	sec, host, def := "server4", "192.0.2.1", 67
+	if v6 {
+		sec, host, def = "server6", "[2001:db8::1]", 547
+	}
+	nd := vnd.Pick("digits", 0, 2)
+	d := vnd.Bytes("port", nd)
+	want := def
+	str := host
+	if nd > 0 {
+		want = 0
+		for _, c := range d {
+			vnd.Assume(vnd.And(c >= '0', c <= '9'))
+			want = want*10 + int(c-'0')
+		}
+		str = host + ":" + string(d)
+	}
+	tree = map[string]interface{}{sec: map[string]interface{}{}, sec + ".plugins": []interface{}{map[string]interface{}{"dns": "x"}}, sec + ".listen": str}
+	ifaces = []net.Interface{}
+	readErr = nil
+	c, err := Load("config.yml")
+	vnd.Cover("loaded")
+	vnd.Assert(err == nil && c != nil, "C18 a numeric port loads")
+	if err != nil || c == nil {
+		return
+	}
+	sc := c.Server4
+	if v6 {
+		sc = c.Server6
+	}
+	vnd.Assert(sc != nil && len(sc.Addresses) == 1 && sc.Addresses[0].Port == want, "C18 an explicit port is taken as written, the default port only when omitted")
 }
